@@ -36,7 +36,7 @@
 (***************************************************************************)
 EXTENDS Integers, FiniteSets, Sequences, TLC, Json
 
-CONSTANTS Obj, MaxSteps, TlsRecurse, SweepCoop, StopOps, Spawners, NestedSweep, TeardownLoop, Registers, FlushRegs,
+CONSTANTS Obj, MaxSteps, TlsRecurse, SweepCoop, StopOps, Spawners, NestedSweep, TeardownLoop, Registers, FlushRegs, Holders, RootCountOnce,
           Emit, ClearOnProcess   \* phase 2 clears a pending entry before finalising it (needed once SweepCoop is on)
 
 VARIABLES st,        \* st[o] \in {"free", "live", "final"}
@@ -86,6 +86,13 @@ Finalise(x, R, P, F, S) ==
           IN IF v \in R /\ S1[v] = "live" THEN Finalise(v, R \ {v}, P1, F1, S1)        \* registered: removed and finalised
              ELSE IF v \in P /\ SweepCoop THEN Finalise(v, R, P1, F1, S1)                  \* pending: finalised now
              ELSE <<R, P1, F1, S1>>                           \* unknown to the registry: silently ignored
+     ELSE IF kind[x] = "holder"
+     THEN \* its finaliser releases the ROOT object it owns (del_root: out of the registry and finalised) and leaves a note (allocates)
+          LET v == CHOOSE y \in fld[x] : TRUE
+              r == IF v \in R /\ S1[v] = "live" THEN Finalise(v, R \ {v}, P \ {v}, F1, S1) ELSE <<R, P, F1, S1>>
+              free == {c \in Obj : r[4][c] = "free" /\ r[3][c] = 0} IN
+          IF free = {} THEN r
+          ELSE LET c == CHOOSE c \in free : \A d \in free : c <= d IN <<r[1] \cup {c}, r[2], r[3], [r[4] EXCEPT ![c] = "live"]>>
      ELSE IF kind[x] = "spawner" /\ \E c \in Obj : S1[c] = "free" /\ F1[c] = 0
      THEN LET c == CHOOSE c \in Obj : S1[c] = "free" /\ F1[c] = 0 /\ \A d \in Obj : (S1[d] = "free" /\ F1[d] = 0) => c <= d IN
           \* the finaliser allocates c: registered at once (never on the mutator's stack: garbage from the start);
@@ -131,6 +138,18 @@ NewSpawner(o) ==
   /\ fld' = [fld EXCEPT ![o] = {}] /\ stack' = stack \cup {o} /\ cpu' = cpu
   /\ reg' = reg \cup {o} /\ rootf' = [rootf EXCEPT ![o] = FALSE]
   /\ UNCHANGED <<owned, tls, fin, asked, running, down, swept>>
+
+(* an object that owns a ROOT object (made with new_root) and releases it in its finaliser, allocating while it is at it *)
+NewHolder(h, r) ==
+  /\ Holders /\ ~down /\ st[h] = "free" /\ fin[h] = 0 /\ running
+  /\ \A q \in Obj : q < h => st[q] # "free" \/ fin[q] > 0
+  /\ st[r] = "live" /\ r \in reg /\ rootf[r] /\ r \notin owned /\ kind[r] = "plain" /\ r \notin asked
+  /\ \A q \in Obj : r \notin fld[q]
+  /\ Tick([op |-> "newholder", o |-> h, p |-> r])
+  /\ st' = [st EXCEPT ![h] = "live"] /\ kind' = [kind EXCEPT ![h] = "holder"] /\ mode' = [mode EXCEPT ![h] = "std"]
+  /\ fld' = [fld EXCEPT ![h] = {r}] /\ owned' = owned \cup {r} /\ stack' = (stack \ {r}) \cup {h} /\ cpu' = cpu \ {r}
+  /\ reg' = reg \cup {h} /\ rootf' = [rootf EXCEPT ![h] = FALSE]
+  /\ UNCHANGED <<tls, fin, asked, running, down, swept>>
 
 (* new(Box, p): the Box owns p from now on *)
 NewBox(b, p, md) ==
@@ -191,19 +210,19 @@ Start == ~down /\ ~running /\ Tick([op |-> "start"]) /\ running' = TRUE
          /\ UNCHANGED <<st, kind, mode, fld, owned, stack, cpu, tls, reg, rootf, fin, asked, down, swept>>
 
 (* thread / program exit: GC_Del sweeps with nothing marked *)
-RECURSIVE TearMore(_, _, _)
-TearMore(R, F, S) ==                       \* further passes of GC_Del: whatever the finalisers of the last pass allocated
-  LET dead == {o \in R : ~rootf[o]} IN
-  IF dead = {} \/ ~TeardownLoop THEN <<R, F, S>>
+RECURSIVE TearMore(_, _, _, _)
+TearMore(R, F, S, n0) ==                   \* further passes of GC_Del: whatever the finalisers of the last pass allocated
+  LET dead == {o \in R : ~rootf[o]} IN     \* (the collectable entries are counted afresh for every pass; RootCountOnce: the roots
+  IF dead = {} \/ ~TeardownLoop \/ (RootCountOnce /\ Cardinality(R) <= n0) THEN <<R, F, S>>       \* were counted once, before the first)
   ELSE LET order == CHOOSE f \in Perms(dead) : TRUE
            r == Phase2([i \in 1..Cardinality(dead) |-> order[i]], R \ dead, dead, F, S) IN
-       TearMore(r[1], r[2], r[3])
+       TearMore(r[1], r[2], r[3], n0)
 Teardown ==
   /\ ~down /\ act' = [op |-> "teardown"] /\ steps' = steps
   /\ LET dead == {o \in reg : ~rootf[o]} IN
      \E order \in Perms(dead) :
        LET r == Phase2([i \in 1..Cardinality(dead) |-> order[i]], reg \ dead, dead, fin, st)
-           t == TearMore(r[1], r[2], r[3]) IN
+           t == TearMore(r[1], r[2], r[3], Cardinality({o \in reg : rootf[o]})) IN
        reg' = t[1] /\ fin' = t[2] /\ st' = t[3]
   /\ down' = TRUE /\ swept' = {}
   /\ stack' = stack \cap {o \in Obj : st'[o] = "live"} /\ cpu' = cpu \cap {o \in Obj : st'[o] = "live"} /\ tls' = tls \cap {o \in Obj : st'[o] = "live"}
@@ -212,6 +231,7 @@ Teardown ==
 Next == \/ \E o \in Obj, md \in {"std", "root", "raw"} : New(o, md)
         \/ \E b, p \in Obj : NewBox(b, p, "std")
         \/ \E o \in Obj : NewSpawner(o)
+        \/ \E h, r \in Obj : NewHolder(h, r)
         \/ \E o, p \in Obj : Store(o, p)
         \/ \E o \in Obj : Drop(o) \/ SetTls(o) \/ Del(o)
         \/ \E o \in Obj : Enregister(o) \/ Spill(o)
